@@ -162,4 +162,67 @@ example : update1 (fun _ x => .ok x) (⟨2, 2, [1, 2, 3, 4]⟩ : Mat Nat) (.mask
 example : assign2 (fun (o x : Nat) => .ok (o + x)) (⟨2, 2, [1, 2, 3, 4]⟩ : Mat Nat) (.scalar 2) .all (.scalar 10)
     = (⟨2, 2, [1, 12, 3, 14]⟩, .ok ()) := by decide
 
+/-- Two-index forms, frame: every cell that is not addressed keeps its value — whatever the
+    source (scalar, vector or matrix), whether the statement succeeds or fails half-way. -/
+theorem C04_assign2_frame (f : α → α → Except Err α) (m : Mat α) (s1 s2 : Sel) (src : Operand α)
+    (R C : List Nat) (h1 : selIxs s1 m.rows = .ok R) (h2 : selIxs s2 m.cols = .ok C) (q : Nat)
+    (hq : ∀ p ∈ pairs R C, cellPos m p ≠ q) :
+    (assign2 f m s1 s2 src).1.data[q]? = m.data[q]? := by
+  have e : assign2 f m s1 s2 src =
+      ({ m with data := (scatter f (srcAt src) ((pairs R C).map (fun p => rcTarget m p.1 p.2)) 0 m.data).1 },
+       (scatter f (srcAt src) ((pairs R C).map (fun p => rcTarget m p.1 p.2)) 0 m.data).2) := by
+    simp only [assign2, h1, h2]
+  rw [e]
+  apply scatter_frame
+  intro p hp
+  obtain ⟨pr, hpr, hpi⟩ := List.mem_map.mp hp
+  obtain ⟨_, _, _, _, h5⟩ := (rcTarget_ok m pr.1 pr.2 p).mp hpi
+  rw [h5]; exact hq pr hpr
+
+/-- Two-index forms, the addressed cells: a successful assignment through distinct in-range row and
+    column indices sets the j-th addressed cell — the cells taken column by column, (r₁,c₁), (r₂,c₁), …,
+    (r₁,c₂), … — to `f old (j-th source element)`: the scalar itself for a scalar source, the j-th
+    element in column-major order for a vector or matrix source (so a source of the addressed shape
+    lands cell for cell), `f` being replacement for `=` and the operator for `op=`. -/
+theorem C04_assign2_writes_addressed (f : α → α → Except Err α) (m : Mat α) (s1 s2 : Sel) (src : Operand α)
+    (R C : List Nat) (h1 : selIxs s1 m.rows = .ok R) (h2 : selIxs s2 m.cols = .ok C)
+    (hnd : (pairs R C).Nodup) (hr : inRange R m.rows) (hc : inRange C m.cols)
+    (m' : Mat α) (h : assign2 f m s1 s2 src = (m', .ok ())) :
+    ∀ j p, (pairs R C)[j]? = some p → ∃ old v new, m.data[cellPos m p]? = some old ∧ srcAt src j = .ok v ∧
+      f old v = .ok new ∧ m'.data[cellPos m p]? = some new := by
+  have e : assign2 f m s1 s2 src =
+      ({ m with data := (scatter f (srcAt src) ((pairs R C).map (fun p => rcTarget m p.1 p.2)) 0 m.data).1 },
+       (scatter f (srcAt src) ((pairs R C).map (fun p => rcTarget m p.1 p.2)) 0 m.data).2) := by
+    simp only [assign2, h1, h2]
+  rw [e] at h
+  have hin : ∀ p ∈ pairs R C, 1 ≤ p.1 ∧ p.1 ≤ m.rows ∧ 1 ≤ p.2 ∧ p.2 ≤ m.cols := by
+    intro p hp
+    obtain ⟨a, b⟩ := (mem_pairs R C p).mp hp
+    exact ⟨(hr _ a).1, (hr _ a).2, (hc _ b).1, (hc _ b).2⟩
+  have hmap : (pairs R C).map (fun p => rcTarget m p.1 p.2) = ((pairs R C).map (cellPos m)).map Except.ok := by
+    rw [List.map_map]
+    apply List.map_congr_left
+    intro p hp
+    obtain ⟨a, b, c, d⟩ := hin p hp
+    exact (rcTarget_ok m p.1 p.2 (cellPos m p)).mpr ⟨a, b, c, d, rfl⟩
+  rw [hmap] at h
+  have hnd' : ((pairs R C).map (cellPos m)).Nodup := by
+    apply nodup_map_of_inj_on (cellPos m) _ hnd
+    intro p hp p' hp' heq
+    obtain ⟨a, b, c, _⟩ := hin p hp
+    obtain ⟨a', b', c', _⟩ := hin p' hp'
+    exact cellPos_inj m p p' ⟨a, b, c⟩ ⟨a', b', c'⟩ heq
+  have g1 := congrArg (fun (x : Mat α × Except Err Unit) => x.1.data) h
+  have g2 := congrArg (fun (x : Mat α × Except Err Unit) => x.2) h
+  simp only at g1 g2
+  have hd : scatter f (srcAt src) (((pairs R C).map (cellPos m)).map Except.ok) 0 m.data = (m'.data, .ok ()) :=
+    Prod.ext g1 g2
+  intro j p hj
+  have hj' : ((pairs R C).map (cellPos m))[j]? = some (cellPos m p) := by simp [hj]
+  obtain ⟨old, v, new, k1, k2, k3, k4⟩ := scatter_writes f (srcAt src) _ 0 m.data m'.data hnd' hd j (cellPos m p) hj'
+  exact ⟨old, v, new, k1, by simpa using k2, k3, k4⟩
+
+example : (pairs [1, 3] [2, 1]).Nodup ∧ inRange [1, 3] 3 ∧ inRange [2, 1] 2 := by decide
+
+
 end MechVerif.Assign
